@@ -115,7 +115,15 @@ func (g *allocGen) coll(d int, cl bool) string {
 }
 
 func (g *allocGen) top(d int) string {
-	switch g.r.Intn(8) {
+	switch g.r.Intn(11) {
+	case 8:
+		// allocations inside the closure of a predicate builtin FOLLOWED by another allocation: what the closure built
+		// stays counted after the builtin has returned (seed c06_7 handed it back to the budget at OpEnd)
+		return fmt.Sprintf("[%s(%s, {len(%s) >= 0}), len(%s)]", g.pick("count", "all", "none", "any", "one"), g.ints(d-1, false), g.pick("[#, #, #]", "#..# + 2", "[[#], [#]]", g.coll(d-1, true)), g.rng(false))
+	case 9:
+		return fmt.Sprintf("len(filter(%s, {len(%s) > 1})) + len(%s) + len(%s)", g.ints(d-1, false), g.pick("[#, #, #]", "0..# + 3", "{a: #, b: [#]}"), g.rng(false), g.pick("[I, J, I]", "(1..4)", g.rng(false)))
+	case 10:
+		return fmt.Sprintf("map(%s, {count(%s, {len([#, #]) == 2})}) == [] or len(%s) > 0", g.ints(d-1, false), g.pick("[1, 2]", "#..# + 1"), g.rng(false))
 	case 0:
 		return fmt.Sprintf("len(%s)", g.coll(d, false))
 	case 1:
